@@ -86,9 +86,18 @@ func (s *fakeStream) Write(b []byte) (int, error)        { return len(b), nil }
 func (s *fakeStream) SetReadDeadline(t time.Time) error  { return nil }
 func (s *fakeStream) SetWriteDeadline(t time.Time) error { return nil }
 func (s *fakeStream) SetDeadline(t time.Time) error      { return nil }
+
+// Close records the call ("close:<id>" when it begins, "cend:<id>" when it returns). Between the
+// two the call is IN FLIGHT: the world's closeHook (if set) runs there and may block or call back
+// into the engine — a schedule source that does not depend on where the code under test keeps
+// its gate points or its mutex.
 func (s *fakeStream) Close() error {
 	s.closes.Add(1)
 	s.w.event(fmt.Sprintf("close:%d", s.id))
+	if h := s.w.closeHook; h != nil {
+		h(s)
+	}
+	s.w.event(fmt.Sprintf("cend:%d", s.id))
 	return nil
 }
 
@@ -106,9 +115,21 @@ func (m *fakeMounted) GetLink() link.MountedLink    { return m.ml }
 type fakeHandler struct {
 	mtx  sync.Mutex
 	vals []directive.Value
+	// onAdd, when set, runs inside AddValue and decides whether the handler takes the value;
+	// false = AddValue refuses it (0, false), like a controllerbus resolver handler whose
+	// resolver context was cancelled / whose directive was released.
+	onAdd func(v directive.Value) bool
+	// refused counts the AddValue calls that were refused
+	refused int
 }
 
 func (h *fakeHandler) AddValue(v directive.Value) (uint32, bool) {
+	if h.onAdd != nil && !h.onAdd(v) {
+		h.mtx.Lock()
+		h.refused++
+		h.mtx.Unlock()
+		return 0, false
+	}
 	h.mtx.Lock()
 	defer h.mtx.Unlock()
 	h.vals = append(h.vals, v)
@@ -133,9 +154,13 @@ type smsValue struct {
 type smsWorld struct {
 	e      *engine
 	mtx    sync.Mutex
-	events []string // "ret:<stream>" / "close:<stream>" in real-time order
+	events []string // "ret:<stream>" / "close:<stream>" (begin) / "cend:<stream>" (end) in real-time order
 	vals   []*smsValue
 	nextID int
+	// closeHook runs inside the fake stream's Close(), between its begin and end events
+	closeHook func(s *fakeStream)
+	// refusals: AddValue calls refused during the last create
+	refusals int
 }
 
 func (w *smsWorld) event(s string) {
@@ -145,7 +170,13 @@ func (w *smsWorld) event(s string) {
 }
 
 // create runs a creation op ("r<k>", "n", "e") on the real code and returns the observed result.
-func (w *smsWorld) create(tok string) string {
+func (w *smsWorld) create(tok string) string { return w.createWith(tok, nil) }
+
+// createWith is create with scripted handlers: onAdd(visit, value) is called inside the AddValue
+// of the visit-th MATCHING directive handler that resolveMatch visits (visit = 0, 1, …: the
+// position in resolveMatch's own iteration order, whatever the map order is) and says whether
+// that handler takes the value. nil = every handler takes it.
+func (w *smsWorld) createWith(tok string, onAdd func(visit int, v directive.Value) bool) string {
 	e := w.e
 	switch tok[0] {
 	case 'n':
@@ -192,8 +223,20 @@ func (w *smsWorld) create(tok string) string {
 		}
 	}
 	rhs := make([]directive.ResolverHandler, len(sd))
+	visits := 0
+	var visitMtx sync.Mutex
 	for i := range sd {
-		hs = append(hs, &fakeHandler{})
+		h := &fakeHandler{}
+		if onAdd != nil && sm[i] {
+			h.onAdd = func(v directive.Value) bool {
+				visitMtx.Lock()
+				k := visits
+				visits++
+				visitMtx.Unlock()
+				return onAdd(k, v)
+			}
+		}
+		hs = append(hs, h)
 		rhs[i] = hs[i]
 	}
 	strm := &fakeStream{id: w.nextID, w: w}
@@ -203,7 +246,9 @@ func (w *smsWorld) create(tok string) string {
 	v := &smsValue{stream: strm}
 	distinct := map[link_solicit.SolicitMountedStream]bool{}
 	deliveries, stray := 0, 0
+	w.refusals = 0
 	for i, h := range hs {
+		w.refusals += h.refused
 		for _, x := range h.vals {
 			if !sm[i] {
 				stray++
@@ -267,9 +312,10 @@ func (w *smsWorld) snapshot() string {
 	w.mtx.Unlock()
 	var ret, cl []string
 	for _, ev := range evs {
-		if strings.HasPrefix(ev, "ret:") {
+		switch {
+		case strings.HasPrefix(ev, "ret:"):
 			ret = append(ret, ev[4:])
-		} else {
+		case strings.HasPrefix(ev, "close:"):
 			cl = append(cl, ev[6:])
 		}
 	}
@@ -304,17 +350,24 @@ func (w *smsWorld) monitor() (string, string) {
 	owners := map[string]int{}
 	closedAt := map[string]int{}
 	retAt := map[string]int{}
+	cendAt := map[string]int{}
 	for i, ev := range w.events {
-		if strings.HasPrefix(ev, "ret:") {
+		switch {
+		case strings.HasPrefix(ev, "ret:"):
 			id := ev[4:]
 			owners[id]++
 			if _, ok := retAt[id]; !ok {
 				retAt[id] = i
 			}
-		} else {
+		case strings.HasPrefix(ev, "close:"):
 			id := ev[6:]
 			if _, ok := closedAt[id]; !ok {
 				closedAt[id] = i
+			}
+		case strings.HasPrefix(ev, "cend:"):
+			id := ev[5:]
+			if _, ok := cendAt[id]; !ok {
+				cendAt[id] = i
 			}
 		}
 	}
@@ -331,6 +384,9 @@ func (w *smsWorld) monitor() (string, string) {
 	for _, id := range ids {
 		if c, ok := closedAt[id]; ok {
 			if c < retAt[id] {
+				if ce, done := cendAt[id]; !done || retAt[id] < ce {
+					return fmt.Sprintf("AcceptMountedStream returned stream %s while the solicitation was closing it (the stream's Close() was in flight)", id), "returned-after-close"
+				}
 				return fmt.Sprintf("AcceptMountedStream returned stream %s after the solicitation had closed it", id), "returned-after-close"
 			}
 			return fmt.Sprintf("stream %s was closed by the solicitation after it had been accepted", id), "closed-after-accept"
@@ -602,7 +658,9 @@ func (e *engine) smsExclusion(kindA, kindB string) {
 
 func (e *engine) runC31() {
 	e.rep.Rule = "scheduled scenarios on real solicitMountedStream values created by the real resolveMatch (0–4 matching directives with different peer/transport constraints among non-matching ones), AcceptMountedStream calls parked at the gate before the mutex while other accepts/closes run; every call result and the guarded state compared with the Lean LTS; plus unscheduled concurrent storms checked for linearizability against the LTS; monitors: one owner per stream, never returned after close, never closed after accept; distinct = distinct op line + script"
-	e.rep.Require("sms.sched", "sms.storm", "sms.exclusion", "accept.stream", "accept.already", "accept.err", "accept.nil",
+	e.rep.Require("sms.sched", "sms.storm", "sms.storm-slowclose", "sms.exclusion", "sms.inflight", "sms.inflight-race", "sms.refuse", "sms.refuse-bus",
+		"inflight.close-in-flight", "inflight.several-accepts", "refuse.all", "refuse.none", "refuse.last-visited", "refuse.first-visited", "refuse.middle",
+		"consumer.immediate", "consumer.late", "consumer.never", "refuse.bus-mixed", "refuse.bus-last-visited", "refuse.bus-last-takes", "refuse.bus-all", "accept.stream", "accept.already", "accept.err", "accept.nil",
 		"close.true", "close.false", "resolve.zero", "resolve.one", "resolve.multi",
 		"race.close-while-accept-parked", "race.two-accepts-parked")
 	// the schedules the property names, every run
@@ -652,12 +710,22 @@ func (e *engine) runC31() {
 	for _, ab := range []string{"aa", "ac", "ca", "cc"} {
 		e.smsExclusion(ab[:1], ab[1:])
 	}
-	e.smsStorms()
+	e.runC31Extra()
+	e.smsStorms(false)
+	e.smsStorms(true)
 }
 
 // smsStorms: unscheduled concurrency. All calls start at a barrier; the gate yields randomly.
-func (e *engine) smsStorms() {
+//
+// slowClose: the fake stream's Close() stays in flight for a few (0–40) microseconds, yielding,
+// so that calls racing with a Close meet it inside the underlying stream's Close().
+func (e *engine) smsStorms(slowClose bool) {
 	n := 120 * e.a.Scale
+	branch := "sms.storm"
+	if slowClose {
+		n = 80 * e.a.Scale
+		branch = "sms.storm-slowclose"
+	}
 	var yield atomic.Int64
 	link_solicit.VerifGate = func(name string) {
 		switch yield.Add(1) % 4 {
@@ -670,6 +738,14 @@ func (e *engine) smsStorms() {
 	defer func() { link_solicit.VerifGate = nil }()
 	for c := 0; c < n; c++ {
 		w := &smsWorld{e: e}
+		if slowClose {
+			d := time.Duration(e.rng.Intn(40)) * time.Microsecond
+			w.closeHook = func(*fakeStream) {
+				for t := time.Now(); time.Since(t) < d; {
+					runtime.Gosched()
+				}
+			}
+		}
 		k := 1 + e.rng.Intn(4)
 		init := fmt.Sprintf("r%d", k)
 		w.create(init)
@@ -708,7 +784,7 @@ func (e *engine) smsStorms() {
 		if cls != "" {
 			key = "wrappers.sms:" + cls
 		}
-		e.rep.Compare(op, model, impl, "sms.storm", key, mon)
+		e.rep.Compare(op, model, impl, branch, key, mon)
 	}
 }
 
